@@ -43,21 +43,99 @@ import (
 
 // ---------------------------------------------------------------- addresses, contents
 
-func c02Addr(idx int, id string) string { return fmt.Sprintf("r%d@%s.example", idx, id) }
+// Envelope spellings (the `env` letter of a scenario / of a hand-made metadata file):
+//
+//	p  plain: sender@example.com, r1@a1.example                     (the default; not printed in op lines)
+//	i  internationalised + SMTPUTF8: absender@bücher.example, r1ü@a1.bücher.example
+//	q  quoted local parts: "the sender"@example.com, "r 1"@a1.example
+//	m  plain sender, recipients 1,2,3 spelled plain / internationalised / quoted, SMTPUTF8
+//	n  null reverse-path (MAIL FROM:<>, a bounce relayed through the queue), plain recipients
+//	z  null reverse-path, recipients spelled as in m
+//
+// All of them are legitimate envelopes; the queue has to treat them alike, except that no failure
+// report can be produced for the null reverse-path.
+const c02Envs = "piqmnz"
 
-func c02ParseAddr(a string) (idx int, id string, ok bool) {
-	if !strings.HasPrefix(a, "r") || !strings.HasSuffix(a, ".example") {
-		return 0, "", false
+func c02EnvOK(env byte) bool { return strings.IndexByte(c02Envs, env) >= 0 }
+
+func c02EnvNull(env byte) bool { return env == 'n' || env == 'z' }
+
+func c02EnvUTF8(env byte) bool { return env == 'i' || env == 'm' || env == 'z' }
+
+// c02Sender: reverse-path of the envelope (From and MsgMeta.OriginalFrom are the same here).
+func c02Sender(env byte) string {
+	switch env {
+	case 'n', 'z':
+		return ""
+	case 'i':
+		return "absender@bücher.example"
+	case 'q':
+		return "\"the sender\"@example.com"
 	}
-	at := strings.IndexByte(a, '@')
+	return "sender@example.com"
+}
+
+func c02RcptKind(env byte, idx int) byte {
+	switch env {
+	case 'i':
+		return 'i'
+	case 'q':
+		return 'q'
+	case 'm', 'z':
+		return "qpi"[idx%3]
+	}
+	return 'p'
+}
+
+func c02AddrE(env byte, idx int, id string) string {
+	switch c02RcptKind(env, idx) {
+	case 'i':
+		return fmt.Sprintf("r%dü@%s.bücher.example", idx, id)
+	case 'q':
+		return fmt.Sprintf("\"r %d\"@%s.example", idx, id)
+	}
+	return fmt.Sprintf("r%d@%s.example", idx, id)
+}
+
+func c02Addr(idx int, id string) string { return c02AddrE('p', idx, id) }
+
+// c02ParseAddr recognises every spelling c02AddrE produces (and the A-label form a failure report
+// without SMTPUTF8 would use for the internationalised domain).
+func c02ParseAddr(a string) (idx int, id string, ok bool) {
+	at := strings.LastIndexByte(a, '@')
 	if at < 0 {
 		return 0, "", false
 	}
-	v, err := strconv.Atoi(a[1:at])
+	local, dom := a[:at], a[at+1:]
+	switch {
+	case strings.HasPrefix(local, "\"r ") && strings.HasSuffix(local, "\"") && len(local) > 4:
+		local = local[3 : len(local)-1]
+	case strings.HasPrefix(local, "r") && strings.HasSuffix(local, "ü"):
+		local = local[1 : len(local)-len("ü")]
+	case strings.HasPrefix(local, "r"):
+		local = local[1:]
+	default:
+		return 0, "", false
+	}
+	for _, c := range local {
+		if c < '0' || c > '9' {
+			return 0, "", false
+		}
+	}
+	v, err := strconv.Atoi(local)
 	if err != nil {
 		return 0, "", false
 	}
-	return v, a[at+1 : len(a)-len(".example")], true
+	for _, suf := range []string{".bücher.example", ".xn--bcher-kva.example", ".example"} {
+		if strings.HasSuffix(dom, suf) {
+			id = dom[:len(dom)-len(suf)]
+			break
+		}
+	}
+	if id == "" || strings.ContainsAny(id, ".@") {
+		return 0, "", false
+	}
+	return v, id, true
 }
 
 func c02HeaderBytes(h textproto.Header) []byte {
@@ -293,6 +371,22 @@ type c02Accept struct {
 	hl   int
 	bl   int
 	fate byte // 'c' Commit, 'b' Abort after Body, 'n' neither (transaction still open at the crash)
+	env  byte // spelling of the envelope (see c02Envs); 0 = 'p'
+}
+
+func (a c02Accept) envL() byte {
+	if a.env == 0 {
+		return 'p'
+	}
+	return a.env
+}
+
+// c02AToken: the `A` token of an op line (the envelope letter is only printed when it is not the default).
+func c02AToken(n, hl, bl int, env byte) string {
+	if env == 0 || env == 'p' {
+		return fmt.Sprintf("%d,%d,%d", n, hl, bl)
+	}
+	return fmt.Sprintf("%d,%d,%d,%c", n, hl, bl, env)
 }
 
 type c02SegIn struct {
@@ -375,14 +469,15 @@ func c02RunSegment(in c02SegIn) c02SegOut {
 	_ = firstAttempt
 	accept := func(a c02Accept) {
 		ctx := context.Background()
-		from := "sender@example.com"
+		from := c02Sender(a.envL())
 		meta := &module.MsgMetadata{ID: a.id, OriginalFrom: from, DontTraceSender: true}
+		meta.SMTPOpts.UTF8 = c02EnvUTF8(a.envL())
 		d, err := q.Start(ctx, meta, from)
 		if err != nil {
 			panic(err)
 		}
 		for i := 1; i <= a.n; i++ {
-			if err := d.AddRcpt(ctx, c02Addr(i, a.id), smtp.RcptOptions{}); err != nil {
+			if err := d.AddRcpt(ctx, c02AddrE(a.envL(), i, a.id), smtp.RcptOptions{}); err != nil {
 				panic(err)
 			}
 		}
@@ -390,7 +485,7 @@ func c02RunSegment(in c02SegIn) c02SegOut {
 		if !ok {
 			panic(fmt.Sprintf("c02: no header of %d bytes", a.hl))
 		}
-		w.Event(a.id, fmt.Sprintf("@A:%d,%d,%d", a.n, a.hl, a.bl))
+		w.Event(a.id, "@A:"+c02AToken(a.n, a.hl, a.bl, a.envL()))
 		if err := d.Body(ctx, hdr, buffer.MemoryBuffer{Slice: c02Body(a.id, a.bl)}); err != nil {
 			panic(err)
 		}
@@ -726,6 +821,15 @@ func c02Events(lg []*vos.Entry, c c02Cut) []string {
 	return out
 }
 
+// c02MetaNull: does the stored metadata carry the null reverse-path (no failure report possible)?
+func c02MetaNull(data []byte) bool {
+	m := &QueueMetadata{MsgMeta: &module.MsgMetadata{}}
+	if err := json.NewDecoder(bytes.NewReader(data)).Decode(m); err != nil || m.MsgMeta == nil {
+		return false
+	}
+	return m.MsgMeta.OriginalFrom == ""
+}
+
 // c02MetaTo parses a .meta file: recipient indexes and their attempt counters.
 func c02MetaTo(data []byte, id string) (to []string, tries []string, ok bool) {
 	m := &QueueMetadata{MsgMeta: &module.MsgMetadata{}}
@@ -765,6 +869,9 @@ func c02ShowDisk(st map[string]vos.FState, id string) string {
 			meta = "M?"
 		} else {
 			meta = "M" + strings.Join(to, ".") + ";" + strings.Join(tries, ".")
+			if c02MetaNull(s.Data) {
+				meta += ";n"
+			}
 			if s.Durable == len(s.Data) {
 				meta += "/f"
 			} else {
@@ -786,6 +893,93 @@ type c02Hist struct {
 	toks []string // model choices so far (ends with the crash token and "R")
 	pre  []string // real events before the crash(es)
 	hp   int      // -1 unknown, else result of ReadHeader on the header found after the first crash
+	tmp  map[string]int  // recipient → temporary failures the target returned before the crash(es)
+	prm  map[string]bool // recipient → the target returned a permanent failure before the crash(es)
+}
+
+// c02Fails adds, per recipient, the failures the scripted target returned in the entries before pos.
+func c02Fails(lg []*vos.Entry, pos int, tmp map[string]int, prm map[string]bool) {
+	letters := ""
+	for i, e := range lg {
+		if i >= pos {
+			break
+		}
+		if e.Kind != 'e' {
+			continue
+		}
+		switch {
+		case strings.HasPrefix(e.Text, "@O:"):
+			letters = e.Text[3:]
+		case strings.HasPrefix(e.Text, "ATT:"):
+			if e.Text != "ATT:" {
+				for k, r := range strings.Split(e.Text[4:], ".") {
+					if k < len(letters) {
+						switch letters[k] {
+						case 't', 'u':
+							tmp[r]++
+						case 'p':
+							prm[r] = true
+						}
+					}
+				}
+			}
+			letters = ""
+		}
+	}
+}
+
+// c02Account is the property's clause for ONE recovery run and ONE stored message: the directory the
+// run started from held a complete message (loadable .meta + header + body) with pending recipients
+// `stored`; every one of them has to be attempted by the run (unless the header file cannot be
+// parsed: then the message stays as it is) and has to end up delivered, named in a failure report,
+// or pending in a loadable .meta next to header and body when the run is over.  For the null
+// reverse-path no report can be made: there a recipient may instead be given up on once the target
+// returned a permanent failure or maxTries temporary ones (tmp/prm: failures before this run).
+// Returns the first recipient that is unaccounted for.
+func c02Account(id string, stored []string, null bool, hdrParses bool, maxTries int, tmp map[string]int, prm map[string]bool,
+	lg []*vos.Entry, final map[string]vos.FState) (lost string, why string) {
+	tmpAll := map[string]int{}
+	prmAll := map[string]bool{}
+	for k, v := range tmp {
+		tmpAll[k] = v
+	}
+	for k, v := range prm {
+		prmAll[k] = v
+	}
+	c02Fails(lg, len(lg), tmpAll, prmAll)
+	att, dlv, rpt, pend := map[string]bool{}, map[string]bool{}, map[string]bool{}, map[string]bool{}
+	for _, e := range lg {
+		if e.Kind != 'e' {
+			continue
+		}
+		for pref, set := range map[string]map[string]bool{"ATT:": att, "DLV:": dlv, "RPT:": rpt} {
+			if strings.HasPrefix(e.Text, pref) && e.Text != pref {
+				for _, r := range strings.Split(e.Text[len(pref):], ".") {
+					set[r] = true
+				}
+			}
+		}
+	}
+	_, hasH := final["H"]
+	_, hasB := final["B"]
+	if m, ok := final["M"]; ok && hasH && hasB {
+		if to, _, ok := c02MetaTo(m.Data, id); ok {
+			for _, r := range to {
+				pend[r] = true
+			}
+		}
+	}
+	for _, r := range stored {
+		gaveUp := null && (prmAll[r] || tmpAll[r] >= maxTries)
+		switch {
+		case !att[r] && hdrParses:
+			return r, "is not attempted by the recovery run"
+		case dlv[r] || rpt[r] || pend[r] || gaveUp:
+		default:
+			return r, "is neither delivered, nor named in a failure report, nor pending in a loadable .meta when the recovery run is over"
+		}
+	}
+	return "", ""
 }
 
 type c02Explorer struct {
@@ -793,7 +987,8 @@ type c02Explorer struct {
 	maxTries int
 	expect   map[string]string
 	norig    map[string]int
-	outs     [][]map[string][]string // outs[depth-1][variant]: scripted outcomes of the recovery runs
+	env      map[string]byte
+	outs     [][]map[string][]string // outs[depth-1][variant]: scripted outcomes of the recovery runs (0 all ok, 1 and 2 with failures)
 	maxDepth int
 	thorough bool
 	rng      *vh.Rng
@@ -921,7 +1116,7 @@ func (x *c02Explorer) explore(seg c02SegOut, recovery bool, hist map[string]c02H
 		return
 	}
 	variants := x.outs[depth-1]
-	for vi, v := range x.vectors(seg, depth) {
+	for _, v := range x.vectors(seg, depth) {
 		files := map[string][]byte{}
 		perID := map[string]map[string][]byte{}
 		for id, c := range v.cuts {
@@ -931,15 +1126,36 @@ func (x *c02Explorer) explore(seg c02SegOut, recovery bool, hist map[string]c02H
 				files[vos.FileName(id, k)] = data
 			}
 		}
-		outcomes := variants[(vi+depth)%len(variants)]
-		key := fmt.Sprintf("%d|%s|%s", x.maxTries, c02StateKey(files), c02OutsKey(outcomes))
-		rec, ok := x.cache[key]
-		if !ok {
-			rec = c02RunSegment(c02SegIn{maxTries: x.maxTries, files: files, outcomes: outcomes, expect: x.expect, recovery: true})
-			x.cache[key] = rec
-			x.out.Stat("recovery-runs.depth" + strconv.Itoa(depth))
-		} else {
-			x.out.Stat("recovery-runs.cached")
+		// does the directory hold anything the start-up scan could schedule?
+		deliverable := false
+		for _, st := range perID {
+			_, m := st["M"]
+			_, h := st["H"]
+			_, b := st["B"]
+			if m && h && b {
+				deliverable = true
+			}
+		}
+		// Scripts of the recovery run.  When something can be delivered the run is made with a script
+		// that fails recipients temporarily and permanently from its first attempt on (so the
+		// failure path of tryDelivery is taken right after EVERY crash point, also those before the
+		// first attempt of the crashed run had ended; which of the two failing scripts is a function
+		// of the directory content, so equal directories share one run), and for a third of the
+		// directories (thorough tier: all) once more with the all-ok script.
+		scripts := variants[:1]
+		skey := c02StateKey(files)
+		pick := 0
+		for i := 0; i < len(skey); i++ {
+			pick = (pick*131 + int(skey[i])) % 1000003
+		}
+		switch {
+		case len(variants) < 3:
+		case !deliverable:
+			x.out.Stat("recovery-script.irrelevant(nothing-to-deliver)")
+		case x.thorough || pick%3 == 0:
+			scripts = []map[string][]string{variants[1+pick%2], variants[0]}
+		default:
+			scripts = []map[string][]string{variants[1+pick%2]}
 		}
 		next := map[string]c02Hist{}
 		for id, c := range v.cuts {
@@ -948,10 +1164,17 @@ func (x *c02Explorer) explore(seg c02SegOut, recovery bool, hist map[string]c02H
 				h.hp = -1
 			}
 			lg := seg.logs[id]
-			nh := c02Hist{hp: h.hp}
+			nh := c02Hist{hp: h.hp, tmp: map[string]int{}, prm: map[string]bool{}}
 			nh.toks = append(append([]string{}, h.toks...), c02Tokens(lg, c, recovery)...)
 			nh.toks = append(nh.toks, c02CutToken(c, v.keep), "R")
 			nh.pre = append(append([]string{}, h.pre...), c02Events(lg, c)...)
+			for k, n := range h.tmp {
+				nh.tmp[k] = n
+			}
+			for k, b := range h.prm {
+				nh.prm[k] = b
+			}
+			c02Fails(lg, c.pos, nh.tmp, nh.prm)
 			if nh.hp < 0 {
 				if data, ok := perID[id]["H"]; ok {
 					nh.hp = 0
@@ -961,9 +1184,38 @@ func (x *c02Explorer) explore(seg c02SegOut, recovery bool, hist map[string]c02H
 				}
 			}
 			next[id] = nh
-			x.judge(id, nh, perID[id], rec, depth, v.keep, c)
 		}
-		x.explore(rec, true, next, depth+1)
+		var first c02SegOut
+		for si, outcomes := range scripts {
+			okey := c02OutsKey(outcomes)
+			if !deliverable {
+				okey = "-"
+			}
+			key := fmt.Sprintf("%d|%s|%s", x.maxTries, skey, okey)
+			rec, ok := x.cache[key]
+			if !ok {
+				rec = c02RunSegment(c02SegIn{maxTries: x.maxTries, files: files, outcomes: outcomes, expect: x.expect, recovery: true})
+				x.cache[key] = rec
+				x.out.Stat("recovery-runs.depth" + strconv.Itoa(depth))
+				if deliverable && len(variants) >= 3 {
+					for vk := range variants {
+						if c02OutsKey(variants[vk]) == okey {
+							x.out.Stat("recovery-script." + []string{"all-ok", "failing-A", "failing-B"}[vk%3])
+							break
+						}
+					}
+				}
+			} else {
+				x.out.Stat("recovery-runs.cached")
+			}
+			if si == 0 {
+				first = rec
+			}
+			for id, c := range v.cuts {
+				x.judge(id, next[id], perID[id], rec, depth, v.keep, c)
+			}
+		}
+		x.explore(first, true, next, depth+1)
 	}
 }
 
@@ -1081,10 +1333,51 @@ func (x *c02Explorer) judge(id string, h c02Hist, crashFiles map[string][]byte, 
 	detail := func() string {
 		return fmt.Sprintf("before the stop: %s; after restart: %s; files at restart: %s", strings.Join(h.pre, " "), strings.Join(post, " "), c02ShowDiskBytes(crashFiles, id))
 	}
-	if accepted && !panicked {
+	null := c02EnvNull(x.env[id])
+	if null {
+		x.out.Stat("history.null-reverse-path")
+	}
+	// (1) the clause for this recovery run and the message it found stored (whatever happened before):
+	// every pending recipient of a complete stored message is attempted and then delivered, reported,
+	// or still pending in a loadable .meta.  A scripted panic of the target quarantines by design.
+	var storedTo []string
+	storedOK := false
+	if data, ok := crashFiles["M"]; ok && hasH && hasB {
+		storedTo, _, storedOK = c02MetaTo(data, id)
+	}
+	accountedPost := map[string]bool{}
+	lostReported := false
+	if storedOK && !has(post, "PANIC") {
+		x.out.Stat("monitor.stored-message-accounted-for.checked")
+		hdrParses := c02HeaderParses(crashFiles["H"])
+		lost, why := c02Account(id, storedTo, null, hdrParses, x.maxTries, h.tmp, h.prm, rec.logs[id], rec.final[id])
+		if lost != "" {
+			sig := "C02/stored-lost"
+			what := "a stored message whose transaction was still open at the stop"
+			if accepted {
+				sig, what = "C02/accepted-lost", "an accepted message"
+			}
+			quarantined := ""
+			if _, q := rec.final[id]["X"]; q && !hasX {
+				quarantined = " (the recovery run left the meta-data as .meta_broken, which is never loaded again)"
+			}
+			x.out.Violation(sig, op, "pending recipient "+lost+" of "+what+" "+why+quarantined+"; "+detail())
+			lostReported = true
+		} else {
+			for _, r := range storedTo {
+				accountedPost[r] = true
+			}
+		}
+	}
+	// (2) the whole history of an accepted message: every original recipient had its outcome before the
+	// stop (for the null reverse-path: was given up on after a permanent failure / maxTries temporary
+	// ones), or is taken care of by the recovery run as in (1).
+	if accepted && !panicked && !lostReported {
+		x.out.Stat("monitor.accepted-survives.checked")
 		for i := 1; i <= x.norig[id]; i++ {
 			r := strconv.Itoa(i)
-			if !termPre[r] && !attemptedPost[r] {
+			gaveUpPre := null && (h.prm[r] || h.tmp[r] >= x.maxTries)
+			if !termPre[r] && !gaveUpPre && !(attemptedPost[r] && accountedPost[r]) {
 				x.out.Violation("C02/accepted-lost", op, "recipient "+r+" of an accepted message neither had an outcome before the stop nor is attempted after restart; "+detail())
 				break
 			}
@@ -1208,6 +1501,17 @@ func c02GenScenario(r *vh.Rng) c02Scenario {
 		default:
 			a.fate = 'n'
 		}
+		// spelling of the envelope: half plain, a quarter null reverse-path, the rest internationalised / quoted / mixed
+		switch x := r.Intn(16); {
+		case x < 8:
+			a.env = 'p'
+		case x < 11:
+			a.env = 'n'
+		case x < 12:
+			a.env = 'z'
+		default:
+			a.env = "iqmi"[x-12]
+		}
 		sc.accepts = append(sc.accepts, a)
 		sc.out0[a.id] = c02GenOutcomes(r, a.n, sc.maxTries, []int{0, 30, 60, 90}[r.Intn(4)], true)
 	}
@@ -1217,13 +1521,15 @@ func c02GenScenario(r *vh.Rng) c02Scenario {
 func c02RunScenario(out *vh.Out, sc c02Scenario, r *vh.Rng, seen *sync.Map, only map[int]c02Only, recOuts [][]map[string][]string, maxDepth int) {
 	expect := map[string]string{}
 	norig := map[string]int{}
+	envs := map[string]byte{}
 	for _, a := range sc.accepts {
 		h, _ := c02HeaderForLen(a.hl)
 		expect[a.id] = c02Sig(h, c02Body(a.id, a.bl))
 		norig[a.id] = a.n
+		envs[a.id] = a.envL()
 	}
 	seg0 := c02RunSegment(c02SegIn{maxTries: sc.maxTries, accepts: sc.accepts, outcomes: sc.out0, expect: expect, stagger: sc.stagger})
-	x := &c02Explorer{out: out, maxTries: sc.maxTries, expect: expect, norig: norig, outs: recOuts, maxDepth: maxDepth,
+	x := &c02Explorer{out: out, maxTries: sc.maxTries, expect: expect, norig: norig, env: envs, outs: recOuts, maxDepth: maxDepth,
 		thorough: vh.Thorough(), rng: r, only: only, cache: map[string]c02SegOut{}, seen: seen}
 	// the run without any crash: the order of the file-system calls of every procedure
 	hist := map[string]c02Hist{}
@@ -1238,6 +1544,7 @@ func c02RunScenario(out *vh.Out, sc c02Scenario, r *vh.Rng, seen *sync.Map, only
 		}
 		out.Stat(fmt.Sprintf("scenario.fate.%c", a.fate))
 		out.Stat(fmt.Sprintf("scenario.rcpts.%d", a.n))
+		out.Stat(fmt.Sprintf("scenario.envelope.%c", a.envL()))
 		if seg0.bad[a.id] {
 			out.Violation("C02/content-differs-without-crash", op, "delivered content differs from the accepted one")
 		}
@@ -1247,14 +1554,23 @@ func c02RunScenario(out *vh.Out, sc c02Scenario, r *vh.Rng, seen *sync.Map, only
 	x.explore(seg0, false, hist, 1)
 }
 
-func c02GenRecOuts(r *vh.Rng, sc c02Scenario, depths int, variants int) [][]map[string][]string {
+// c02GenRecOuts: per depth three scripts for the recovery runs — 0: everything is delivered; 1 and 2:
+// recipients fail temporarily / permanently / unclassified, at least one of them in the FIRST attempt
+// of the recovery run (density 50% and 80%).
+func c02GenRecOuts(r *vh.Rng, sc c02Scenario, depths int) [][]map[string][]string {
 	var all [][]map[string][]string
 	for d := 0; d < depths; d++ {
 		var vs []map[string][]string
-		for v := 0; v < variants; v++ {
+		for v := 0; v < 3; v++ {
 			m := map[string][]string{}
 			for _, a := range sc.accepts {
-				m[a.id] = c02GenOutcomes(r, a.n, sc.maxTries+1, []int{0, 40, 80}[(v+d)%3], false)
+				o := c02GenOutcomes(r, a.n, sc.maxTries+1, []int{0, 50, 80}[v], false)
+				if v > 0 && !strings.ContainsAny(o[0], "tpu") {
+					b := []byte(o[0])
+					b[r.Intn(len(b))] = "tpu"[r.Intn(3)]
+					o[0] = string(b)
+				}
+				m[a.id] = o
 			}
 			vs = append(vs, m)
 		}
@@ -1299,9 +1615,15 @@ func c02Replay(out *vh.Out, op string, seen *sync.Map) {
 		switch {
 		case t[0] == 'A':
 			p := strings.Split(t[1:], ",")
+			if len(p) < 3 {
+				return
+			}
 			a.n, _ = strconv.Atoi(p[0])
 			a.hl, _ = strconv.Atoi(p[1])
 			a.bl, _ = strconv.Atoi(p[2])
+			if len(p) > 3 && len(p[3]) == 1 && c02EnvOK(p[3][0]) {
+				a.env = p[3][0]
+			}
 		case t[0] == '+':
 			v, _ := strconv.Atoi(t[1:])
 			ops += v
@@ -1339,14 +1661,26 @@ func c02Replay(out *vh.Out, op string, seen *sync.Map) {
 
 // ---------------------------------------------------------------- hand-made directory states
 
-func c02MetaJSON(id string, to []int, tries []int) []byte {
-	m := &QueueMetadata{MsgMeta: &module.MsgMetadata{ID: id, OriginalFrom: "sender@example.com", DontTraceSender: true},
-		From: "sender@example.com", RcptErrs: map[string]*smtp.SMTPError{}, TriesCount: map[string]int{},
+// c02MetaJSON writes the metadata file the way the queue itself would have (same struct, same
+// encoder): with all counters zero it is the image storeNewMessage leaves at acceptance (RcptErrs
+// empty, TriesCount absent), otherwise the one tryDelivery leaves after the recipients with a
+// counter failed temporarily (their last error recorded in RcptErrs).
+func c02MetaJSON(id string, to []int, tries []int, env byte) []byte {
+	from := c02Sender(env)
+	m := &QueueMetadata{MsgMeta: &module.MsgMetadata{ID: id, OriginalFrom: from, DontTraceSender: true},
+		From: from, RcptErrs: map[string]*smtp.SMTPError{},
 		FirstAttempt: time.Unix(1700000000, 0), LastAttempt: time.Unix(1700000000, 0)}
+	m.MsgMeta.SMTPOpts.UTF8 = c02EnvUTF8(env)
 	for i, r := range to {
-		m.To = append(m.To, c02Addr(r, id))
+		addr := c02AddrE(env, r, id)
+		m.To = append(m.To, addr)
 		if tries[i] != 0 {
-			m.TriesCount[c02Addr(r, id)] = tries[i]
+			if m.TriesCount == nil {
+				m.TriesCount = map[string]int{}
+			}
+			m.TriesCount[addr] = tries[i]
+			m.TemporaryFailedRcpts = append(m.TemporaryFailedRcpts, addr)
+			m.RcptErrs[addr] = &smtp.SMTPError{Code: 451, EnhancedCode: smtp.EnhancedCode{4, 3, 0}, Message: "try later"}
 		}
 	}
 	var b bytes.Buffer
@@ -1357,7 +1691,7 @@ func c02MetaJSON(id string, to []int, tries []int) []byte {
 }
 
 func c02RunSyn(out *vh.Out, op string) {
-	// C02 syn <maxTries> <hp> H<len|-> B<len|-> M<to;tries|g|-> N<+|-> X<+|-> R <outcome tokens are derived>
+	// C02 syn <maxTries> <hp> H<len|-> B<len|-> M<to;tries[;env]|g|-> N<+|-> X<+|-> R <outcome tokens are derived>
 	f := strings.Fields(op)
 	if len(f) < 9 {
 		return
@@ -1365,6 +1699,8 @@ func c02RunSyn(out *vh.Out, op string) {
 	maxTries, _ := strconv.Atoi(f[2])
 	id := "a1"
 	files := map[string][]byte{}
+	env := byte('p')
+	var synTries map[string]int
 	if f[4] != "H-" {
 		n, _ := strconv.Atoi(f[4][1:])
 		if f[3] == "1" {
@@ -1387,6 +1723,12 @@ func c02RunSyn(out *vh.Out, op string) {
 		files[id+".meta"] = []byte("{\"MsgMeta\":{\"ID\":\"a1\"},\"To\":[\"r1@a")
 	default:
 		p := strings.Split(f[6][1:], ";")
+		if len(p) < 2 {
+			return
+		}
+		if len(p) > 2 && len(p[2]) == 1 && c02EnvOK(p[2][0]) {
+			env = p[2][0]
+		}
 		var to, tries []int
 		for _, s := range strings.Split(p[0], ".") {
 			v, _ := strconv.Atoi(s)
@@ -1396,7 +1738,13 @@ func c02RunSyn(out *vh.Out, op string) {
 			v, _ := strconv.Atoi(s)
 			tries = append(tries, v)
 		}
-		files[id+".meta"] = c02MetaJSON(id, to, tries)
+		synTries = map[string]int{}
+		for i, r := range to {
+			if i < len(tries) {
+				synTries[strconv.Itoa(r)] = tries[i]
+			}
+		}
+		files[id+".meta"] = c02MetaJSON(id, to, tries, env)
 	}
 	if f[7] == "N+" {
 		files[id+".meta.new"] = []byte("{\"MsgMe")
@@ -1440,13 +1788,34 @@ func c02RunSyn(out *vh.Out, op string) {
 			out.Stat("syn.label." + l)
 		}
 	}
+	out.Stat(fmt.Sprintf("syn.envelope.%c", env))
 	// monitor: nothing but pending recipients of the stored metadata is ever attempted
 	stored := map[string]bool{}
+	var storedTo []string
+	storedOK := false
 	if data, ok := files[id+".meta"]; ok {
 		if to, _, ok := c02MetaTo(data, id); ok {
+			storedTo, storedOK = to, true
 			for _, r := range to {
 				stored[r] = true
 			}
+		}
+	}
+	// monitor: the property's clause for a recovery run — every pending recipient of a complete stored
+	// message is attempted, and is then delivered, named in a failure report, or still pending in a
+	// loadable .meta (null reverse-path: or given up on after a permanent failure / maxTries temporary
+	// ones, the stored counters included); a .meta_broken made by this run loses them.
+	hdrData, hasHdr := files[id+".header"]
+	_, hasBody := files[id+".body"]
+	if storedOK && hasHdr && hasBody && extDel == "" {
+		out.Stat("syn.monitor.stored-message-accounted-for.checked")
+		lost, why := c02Account(id, storedTo, c02EnvNull(env), c02HeaderParses(hdrData), maxTries, synTries, nil, lg, rec.final[id])
+		if lost != "" {
+			quarantined := ""
+			if _, q := rec.final[id]["X"]; q && c02DidOp(lg, "mvMX") {
+				quarantined = " (the recovery run left the meta-data as .meta_broken, which is never loaded again)"
+			}
+			out.Violation("C02/accepted-lost", line, "pending recipient "+lost+" of the stored message "+why+quarantined+"; after restart: "+strings.Join(labels, " ")+"; files at the end: "+c02ShowDisk(rec.final[id], id))
 		}
 	}
 	// monitor: within the recovery run a recipient that was delivered is no longer pending - a later
@@ -1482,6 +1851,24 @@ func c02RunSyn(out *vh.Out, op string) {
 
 func c02ReplaySyn(out *vh.Out, op string) { c02RunSyn(out, op) }
 
+// c02DidOp: did the run issue the file operation `text`?
+func c02DidOp(lg []*vos.Entry, text string) bool {
+	for _, e := range lg {
+		if e.Kind == 'o' && e.Text == text {
+			return true
+		}
+	}
+	return false
+}
+
+func make0(n int) []string {
+	z := make([]string, n)
+	for i := range z {
+		z[i] = "0"
+	}
+	return z
+}
+
 func c02GenSyn(r *vh.Rng) string {
 	maxTries := 1 + r.Intn(3)
 	hp := 1
@@ -1511,6 +1898,13 @@ func c02GenSyn(r *vh.Rng) string {
 			tr = append(tr, strconv.Itoa(r.Intn(3)))
 		}
 		m = "M" + strings.Join(to, ".") + ";" + strings.Join(tr, ".")
+		// the acceptance-time image (all counters zero) is the most common stored state
+		if r.Chance(35) {
+			m = "M" + strings.Join(to, ".") + ";" + strings.Join(make0(n), ".")
+		}
+		if r.Chance(50) {
+			m += ";" + string("nnnziqm"[r.Intn(7)])
+		}
 	case x < 8:
 		m = "Mg"
 	}
@@ -1582,14 +1976,12 @@ func TestVerifC02(t *testing.T) {
 				}
 				r := vh.NewRng(j.seed)
 				depth := 1
-				variants := 1
 				if vh.Thorough() {
 					depth = 2
-					variants = 2
 				} else if r.Chance(20) && len(j.sc.accepts) == 1 {
 					depth = 2
 				}
-				c02RunScenario(out, j.sc, r, seen, nil, c02GenRecOuts(r, j.sc, depth, variants), depth)
+				c02RunScenario(out, j.sc, r, seen, nil, c02GenRecOuts(r, j.sc, depth), depth)
 			}
 		}()
 	}
